@@ -81,9 +81,13 @@ def gen_plan(rng, tier, index=0):
             steps.append({"op": "og", "prof": pi, "L": L, "R": r.weighted([(0, 1), (1, 2), (2, 2), (5, 1)] + ([(10, 1)] if tier == "thorough" else [])),
                           "stub": ({"policy": r.choice(STUB_POLICIES), "arg": r.randrange(1000)} if stub_run else None)})
         elif m == "eq":
-            steps.append({"op": "eq", "prof": pi, "L": r.randint(1, N - 1) if N > 2 else 1, "wind": profs[pi]["wind"] and r.chance(0.7)})
+            steps.append({"op": "eq", "prof": pi, "L": r.randint(1, N - 1) if N > 2 else 1, "wind": profs[pi]["wind"] and r.chance(0.7),
+                          "perm": r.weighted([(None, 5), ("desc", 2), (r.randrange(10 ** 6), 3)])})
         else:
-            steps.append({"op": "gctm", "prof": pi, "L": r.randint(1, max(1, min(3, N // 3)))})
+            # the caller's units: heights in km / strengths as fractions, with the matching scalings passed along
+            steps.append({"op": "gctm", "prof": pi, "L": r.randint(1, max(1, min(3, N // 3))),
+                          "perm": r.weighted([(None, 6), ("desc", 2), (r.randrange(10 ** 6), 2)]),
+                          "units": r.weighted([(None, 5), ({"h": 1e-3, "p": 1.0}, 2), ({"h": 1.0, "p": 1e13}, 2), ({"h": 1e-3, "p": 3.7e14}, 2)])})
     if not any(s.get("op") == "og" for s in steps):
         steps.append({"op": "og", "prof": 0, "L": max(1, profs[0]["N"] // 2), "R": 2, "stub": None})
     return {"ambient": rng.randrange(2 ** 31), "profiles": profs, "steps": steps}
@@ -293,6 +297,15 @@ def gctm_objective(hx, cx, L, mom0, hs=10000., cs=100e-15):
     return float(((m - mom0) ** 2).sum())
 
 
+def _perm(spec, N):
+    import numpy
+    if spec is None:
+        return None
+    if spec == "desc":
+        return numpy.arange(N)[::-1]
+    return numpy.random.RandomState(int(spec) % (2 ** 32)).permutation(N)
+
+
 def _independent_gctm(g_h, g_c, L, mom0, hs=10000., cs=100e-15):
     import numpy
     from scipy.optimize import minimize
@@ -366,6 +379,11 @@ def execute(plan, keep_log=False):
         elif st["op"] == "eq":
             res.count("op.equivalent_layers")
             ww = w if st.get("wind") else None
+            # equivalent_layers does not ask for sorted heights: the caller's layer order is arbitrary
+            order = _perm(st.get("perm"), N)
+            if order is not None:
+                h, p, ww = h[order], p[order], (ww[order] if ww is not None else None)
+                res.count("fault.layers_not_in_ascending_order")
             try:
                 with numpy.errstate(all="ignore"):
                     out = pc.equivalent_layers(h, p, L, ww)
@@ -379,6 +397,14 @@ def execute(plan, keep_log=False):
             hist.append("eq")
         else:
             # GCTM: only when the L equal-thickness slabs are all non-empty (its starting guess needs that)
+            order = _perm(st.get("perm"), N)
+            if order is not None:
+                h, p = h[order], p[order]
+            un = st.get("units") or {"h": 1.0, "p": 1.0}
+            h, p = h * un["h"], p * un["p"]
+            hs, cs = 10000. * un["h"], 100e-15 * un["p"]
+            if st.get("units"):
+                res.count("fault.gctm_called_in_other_units")
             with numpy.errstate(all="ignore"):
                 try:
                     g_h, g_c = pc.equivalent_layers(h, p, L)[:2]
@@ -391,7 +417,7 @@ def execute(plan, keep_log=False):
             res.count("op.GCTM")
             try:
                 with numpy.errstate(all="ignore"):
-                    out = pc.GCTM(h, p, L)
+                    out = pc.GCTM(h, p, L, hs, cs) if st.get("units") else pc.GCTM(h, p, L)
             except Exception as e:
                 res.violate("raised", "C18:GCTM:raised:%s" % type(e).__name__, "GCTM(N=%d, L=%d) raised %s" % (N, L, e), si)
                 continue
@@ -402,12 +428,12 @@ def execute(plan, keep_log=False):
                 continue
             if not (oc >= 0).all() or not (oh >= 0).all():
                 res.violate("sign", "C18:GCTM:negative-strength-or-height", "GCTM returned %s %s" % (oh, oc), si)
-            mom0 = numpy.array([(p / 100e-15 * (h / 10000.) ** i).sum() for i in range(2 * L - 1)])
-            f0 = gctm_objective(numpy.asarray(g_h, dtype=float), numpy.asarray(g_c, dtype=float), L, mom0)
-            f1 = gctm_objective(oh, oc, L, mom0)
+            mom0 = numpy.array([(p / cs * (h / hs) ** i).sum() for i in range(2 * L - 1)])
+            f0 = gctm_objective(numpy.asarray(g_h, dtype=float), numpy.asarray(g_c, dtype=float), L, mom0, hs, cs)
+            f1 = gctm_objective(oh, oc, L, mom0, hs, cs)
             # 'to optimiser accuracy': an independent L-BFGS-B run (checker's own objective, numerical gradient) from the same
             # starting guess shows how far the objective can be reduced; the library must get within a wide margin of it
-            f_ind = _independent_gctm(numpy.asarray(g_h, dtype=float), numpy.asarray(g_c, dtype=float), L, mom0)
+            f_ind = _independent_gctm(numpy.asarray(g_h, dtype=float), numpy.asarray(g_c, dtype=float), L, mom0, hs, cs)
             if f_ind is not None and f1 > max(1000.0 * f_ind, 0.01 * f0) and f0 > 0:
                 res.violate("objective", "C18:GCTM:did-not-optimise",
                             "GCTM(N=%d, L=%d, %s heights): moment mismatch %.3e at the result (start %.3e) although an independent "
@@ -420,6 +446,7 @@ def execute(plan, keep_log=False):
                 res.sig("gctm", N, L, sp["kind"])
             hist.append("gctm")
     res.digest = log.digest()
+    res.sched_digest = log.full_digest()
     if keep_log:
         res.events = log.events
     return res
